@@ -246,6 +246,75 @@ def _s(x):
     return r if len(r) < 500 else r[:500] + '...'
 
 
+def tree_from_calls(calls, root):
+    """A tree built through the public API that the DOM writer must turn
+    into exactly these writer calls."""
+    d = DiffX(encoding=root)
+    cur_c = cur_f = None
+    node = d
+    for c in calls:
+        k = c[0]
+        if k == 'change':
+            cur_c = d.add_change(**({'encoding': c[1]} if c[1] else {}))
+            node = cur_c
+        elif k == 'file':
+            cur_f = cur_c.add_file(**({'encoding': c[1]} if c[1] else {}))
+            node = cur_f
+        elif k == 'preamble':
+            node.preamble = c[1]
+            if c[2]:
+                node.preamble_encoding = c[2]
+            node.preamble_indent = c[3]
+            if c[4]:
+                node.preamble_line_endings = c[4]
+            if c[5]:
+                node.preamble_mimetype = c[5]
+        elif k == 'meta':
+            node.meta = copy.deepcopy(c[1])
+            if c[2]:
+                node.meta_encoding = c[2]
+        else:
+            node.diff = c[1]
+            if c[2]:
+                node.diff_type = c[2]
+            if c[3]:
+                node.diff_encoding = c[3]
+            if c[4]:
+                node.diff_line_endings = c[4]
+    return d
+
+
+def check_scale(cfg, variant):
+    from mc import wrgraph
+    root, enc, le = variant
+    calls = wrgraph.scale_calls(cfg, enc, le)
+    tree = tree_from_calls(calls, root)
+    v = []
+    try:
+        data = tree.to_bytes()
+    except Exception as e:
+        return [('to-bytes-raised:%s:%s:scale' % (type(e).__name__,
+                                                  site_of(e)), repr(e))]
+    want, recs = spec.serialize(calls, root)
+    if data != want:
+        i = next((k for k in range(min(len(data), len(want)))
+                  if data[k] != want[k]), min(len(data), len(want)))
+        v.append(('bytes-not-canonical:scale', 'first difference at byte %d '
+                  'of %d/%d: wrote %r canonical %r'
+                  % (i, len(data), len(want), data[max(0, i - 30):i + 40],
+                     want[max(0, i - 30):i + 40])))
+    try:
+        back = DiffX.from_bytes(want)
+    except Exception as e:
+        v.append(('from-bytes-raised:%s:%s:scale' % (type(e).__name__,
+                                                     site_of(e)), repr(e)))
+        return v
+    if freeze(snap(back)) != freeze(snap_from_records(recs)):
+        v.append(('reloaded-tree-differs:%s:scale' % first_diff(
+            snap(back), snap_from_records(recs)), 'scale %r' % (cfg,)))
+    return v
+
+
 SHAPES_Q = [(), (0,), (1,), (2,), (1, 1), (2, 1)]
 SHAPES_T = SHAPES_Q + [(0, 1), (2, 2), (3,), (1, 1, 1)]
 
@@ -267,6 +336,8 @@ def plan(tier):
         step = 12 if k >= 3 else 40
         for i in range(0, len(combos), step):
             units.append((si, combos[i:i + step]))
+    from mc import wrgraph
+    units += [('scale',) + (u[1],) for u in wrgraph.scale_units(tier, 6)[0]]
     return {
         'units': units,
         'rule': 'trees of shapes %r (files per change) built only through '
@@ -281,7 +352,10 @@ def plan(tier):
                 'mc/spec.py; harness snapshot of from_bytes(bytes) == '
                 'snapshot the documented normalisation gives; DOM == agrees '
                 'with snapshot equality; to_bytes leaves the tree unchanged. '
-                'Non-trivial: >= 2 files or a non-default option.' % (shapes,),
+                'Plus a scale pass: trees whose sections take boundary sizes '
+                '(counts, lines, widths around 96 / 1024 / 4096 / 8192 / 65536, '
+                'indent, metadata width / depth). Non-trivial: >= 2 files or '
+                'a non-default option.' % (shapes,),
         'bound': 'k deviations per tree as stated',
         'exhaustive': True,
         'assumptions': ['texts whose UTF-16/32 bytes contain a misaligned '
@@ -293,6 +367,23 @@ def plan(tier):
 def run_unit(unit, tier):
     acc = Acc()
     shapes = SHAPES_Q if tier == 'quick' else SHAPES_T
+    if unit[0] == 'scale':
+        from mc import wrgraph
+        _, cfgs, variants = wrgraph.scale_units(tier, 6)
+        for ci, vi in unit[1]:
+            viols = check_scale(cfgs[ci], variants[vi])
+            acc.evals += 1
+            acc.states += 1
+            acc.transitions += 2
+            acc.validated += 1
+            acc.nontrivial += 1
+            for key, msg in viols:
+                acc.violation(key, msg[:1500], {'kind': 'scale',
+                                                'cfg': cfgs[ci],
+                                                'variant': vi})
+            acc.outcome('ok' if not viols else 'violation')
+        acc.sample({'scale_configuration': cfgs[unit[1][0][0]]}, 1)
+        return acc
     si, combos = unit
     shape = shapes[si]
     S = slots_for(shape)
@@ -327,6 +418,11 @@ def run_unit(unit, tier):
 
 
 def replay(payload):
+    if payload.get('kind') == 'scale':
+        from mc import wrgraph
+        variants = wrgraph.scale_units('quick', 6)[2]
+        return [{'key': k, 'msg': m} for k, m in check_scale(
+            payload['cfg'], variants[payload['variant']])]
     if payload.get('kind') != 'tree':
         return []
     assign = {}
